@@ -16,7 +16,7 @@ NEEDS = ["harness", "cli"]
 RULE = ("L: shapes with 1-6 axes (lengths 1-7, plus one array with > 8192 entries per shard) x values {integers, dyadics, random doubles, wide "
         "exponents, +-0, subnormals, 1e+-300, max double, +-inf, NaN} x precision 0..17; npy: bits identical after write->read; text: every printed "
         "finite token d satisfies |d - x| <= 0.5*10^-p exactly and the value read back is float(d) bit for bit (NaN<->NaN, inf<->inf). C: writers "
-        "{create, view, fold} x formats {text, npy} x transport {file, pipe} -> readers {view, fold, stat} with auto-detection; text->npy->text at "
+        "{create, view, fold} x formats {text, npy} x transport {file, pipe} -> readers {view, fold, stat} via {stdin pipe, regular file, /dev/stdin, named pipe} with auto-detection; text->npy->text at "
         "the same precision reproduces the text when values have <= 15 significant digits. Non-trivial: non-constant data; distinct = digest(shape, bits, precision).")
 ASSUMPTIONS = ["Python's float(str) is correctly rounded (IEEE round-half-even), used as the reference for reading decimals",
                "-0 and 0 are the same number for text; NaN payloads only compared for npy"]
@@ -157,8 +157,35 @@ def check_C(S, p):
             S.viol("C07:writer-failed", "[C %s] writer failed: rc %s %r" % (writer, w.rc, w.err[:200]), wit)
             continue
         for reader in (["view", "--precision", "15"], ["fold"], ["stat", "-s", "sum"]):
-            via = rng.choice(["stdin", "path"])
-            r = cli.sfs(reader, stdin=produced) if via == "stdin" else cli.sfs(reader + [E.tmpfile(produced, ".in")])
+            via = rng.choice(["stdin", "path", "dev-stdin", "fifo"])
+            if via == "stdin":
+                r = cli.sfs(reader, stdin=produced)
+            elif via == "path":
+                r = cli.sfs(reader + [E.tmpfile(produced, ".in")])
+            elif via == "dev-stdin":
+                r = cli.sfs(reader + ["/dev/stdin"], stdin=produced)          # a pipe named by a path
+            else:
+                import os, threading
+                fifo = E.tmpfile(b"", ".fifo")
+                os.unlink(fifo)
+                os.mkfifo(fifo)
+
+                def feed():
+                    try:
+                        with open(fifo, "wb") as f:
+                            f.write(produced)
+                    except OSError:
+                        pass
+                th = threading.Thread(target=feed, daemon=True)
+                th.start()
+                r = cli.sfs(reader + [fifo])
+                if th.is_alive():
+                    try:                                   # the reader never opened the fifo: unblock the writer
+                        fd = os.open(fifo, os.O_RDONLY | os.O_NONBLOCK)
+                        os.close(fd)
+                    except OSError:
+                        pass
+                th.join(timeout=5)
             S.count("C_matrix_runs")
             S.observe("reader_transport", "%s/%s" % (reader[0], via))
             if r.rc != 0 or not r.out:
